@@ -48,7 +48,7 @@ def gen_script(rnd, long=False):
         if c < 0.55 or long:
             kind = rnd.choice(S.KINDS)
             pol = rnd.choice(["idem", "idem", "nonidem", "conn", "short", "long"] * 3
-                             + ["zero", "neg", "hour"])
+                             + ["zero", "neg", "hour", "forever"])
             mode = rnd.choice(["inline", "inline", "t1", "t2", "t3"])
             ops.append(["send", kind, pol, mode])
             if long and i % 97 == 50:
@@ -159,6 +159,13 @@ def directed():
                    + [["close"]])
         out.append([["q"]] + [["send", S.KINDS[i % 3], "long", "hdr"] for i in range(n)]
                    + [["close"], ["open"], ["adv", 3.0], ["send", "zone_ctrl", "idem", "inline"]])
+    # a lifetime without end: on a healthy link and across an outage
+    out.append([["q"], ["send", "zone_ctrl", "forever", "inline"],
+                ["send", "ac_ctrl", "idem", "inline"], ["send", "quick_timer", "forever", "t1"],
+                ["adv", 1.0]])
+    out.append([["net", "refuse", 0.0], ["net", "refuse", 0.0],
+                ["send", "zone_ctrl", "forever", "inline"], ["send", "ac_ctrl", "long", "inline"],
+                ["send", "quick_timer", "forever", "inline"], ["adv", 6.0]])
     # a caller that supplies its own headers and uses a packet number again while the earlier
     # message is still waiting: two messages, two frames
     for n in (2, 3, 5):
